@@ -1070,6 +1070,20 @@ class Mesh:
         indexing = np.hstack(tuple([t[ix] for ix in indices]))
         sorted_indexing = np.sort(indexing, axis=0)
 
+        dup = np.vstack((np.zeros((1, sorted_indexing.shape[1]), dtype=bool),
+                         np.diff(sorted_indexing, axis=0) == 0))
+        if dup.any():
+            # entities repeating a vertex (triangular facets of prisms):
+            # distinct vertices first, filled up with the largest, so that
+            # the key does not depend on which vertex was repeated
+            sorted_indexing = np.where(
+                np.sort(dup, axis=0),
+                sorted_indexing[-1],
+                np.take_along_axis(sorted_indexing,
+                                   np.argsort(dup, axis=0, kind='stable'),
+                                   axis=0),
+            )
+
         sorted_indexing, ixa, ixb = np.unique(sorted_indexing,
                                               axis=1,
                                               return_index=True,
